@@ -105,6 +105,11 @@ Theorem clip_centres (IO : IoOps R) (m : gmeta R) (data : list Z) (xll yll xur y
     coord2cell RR (g_nrows m) (g_ncols m) (g_xll m) (g_yll m) (g_csz m) (xur, yur)
       = (k_row0 r * g_ncols m + k_col1 r)%Z /\
     g_csz (k_meta r) = g_csz m /\ g_dtype (k_meta r) = g_dtype m /\ g_nodata (k_meta r) = g_nodata m /\
+    (* parent bookkeeping *)
+    lookup "parentgrid_rows_start" (g_parent (k_meta r)) = Some (PInt (k_row0 r)) /\
+    lookup "parentgrid_rows_end" (g_parent (k_meta r)) = Some (PInt (k_row1 r)) /\
+    lookup "parentgrid_cols_start" (g_parent (k_meta r)) = Some (PInt (k_col0 r)) /\
+    lookup "parentgrid_cols_end" (g_parent (k_meta r)) = Some (PInt (k_col1 r)) /\
     forall i j, (0 <= i < g_nrows (k_meta r))%Z -> (0 <= j < g_ncols (k_meta r))%Z ->
       cell2coord RR (g_nrows (k_meta r)) (g_ncols (k_meta r)) (g_xll (k_meta r)) (g_yll (k_meta r))
                  (g_csz (k_meta r)) (i * g_ncols (k_meta r) + j) =
@@ -141,6 +146,7 @@ Proof.
   split; [unfold r0, r1; lia|]. split; [unfold r0; lia|]. split; [lia|]. split; [lia|].
   split; [reflexivity|]. split; [reflexivity|]. split; [reflexivity|]. split; [reflexivity|].
   split; [reflexivity|]. split; [reflexivity|]. split; [reflexivity|].
+  split; [reflexivity|]. split; [reflexivity|]. split; [reflexivity|]. split; [reflexivity|].
   intros i j Hi Hj. split.
   - rewrite !cell2coord_centre by (unfold r0, r1 in *; lia).
     rewrite ntwo_RR. cbn [nsub ndiv RR].
